@@ -858,6 +858,12 @@ func SubstituteParameters(layout Layout,
 
 	replacer := strings.NewReplacer(parameters...)
 
+	// layout is a copy, but its Steps and Inspect slices still share their
+	// backing arrays with the caller's layout: copy them before rewriting, so
+	// that the passed layout (and its signature) stays untouched.
+	layout.Steps = append([]Step(nil), layout.Steps...)
+	layout.Inspect = append([]Inspection(nil), layout.Inspect...)
+
 	for i := range layout.Steps {
 		layout.Steps[i].ExpectedMaterials = substituteParametersInSliceOfSlices(
 			replacer, layout.Steps[i].ExpectedMaterials)
